@@ -18,6 +18,8 @@ use starlark::values::tuple::UnpackTuple;
 
 use crate::canon;
 
+pub static GLOBAL_NAMES: std::sync::OnceLock<Vec<String>> = std::sync::OnceLock::new();
+
 thread_local! {
     pub static LOG: RefCell<Vec<J>> = const { RefCell::new(Vec::new()) };
     pub static SHARING: Cell<bool> = const { Cell::new(false) };
@@ -55,6 +57,11 @@ pub fn harness_natives(builder: &mut GlobalsBuilder) {
         }
         log(J::Array(out));
         Ok(NoneType)
+    }
+
+    /// Names of all globals of the environment the harness evaluates in (live inventory).
+    fn harness_global_names() -> anyhow::Result<Vec<String>> {
+        Ok(GLOBAL_NAMES.get().cloned().unwrap_or_default())
     }
 
     /// Identity function the optimiser knows nothing about.
